@@ -6,6 +6,7 @@ pub mod prog;
 pub mod reqs;
 pub mod c12;
 pub mod c13;
+pub mod climin;
 pub mod cliworld;
 pub mod corpus;
 pub mod gcsim;
